@@ -104,6 +104,13 @@ impl MT210 {
             }
         }
 
+        // Sequence B is mandatory: a message without it is rejected
+        if transactions.is_empty() {
+            return Err(crate::errors::ParseError::InvalidFormat {
+                message: "MT210: At least one repetitive sequence (field 21) is required".to_string(),
+            });
+        }
+
         // Reject content left after the last field of the message
         verify_parser_complete(&parser)?;
 
